@@ -120,6 +120,28 @@ PROPS["C17"] = {
     ],
 }
 
+GSFA_SHRINK = [{"file": "gsfa/gsfa-write.go", "rules": [
+    {"old": "1000", "new": "4", "within": "itemsPerBatch"},
+    {"old": "256", "new": "3"},
+    {"old": "100_000", "new": "5"},
+    {"old": "slot%500", "new": "slot%5"},
+    {"old": "1 * time.Second", "new": "5 * time.Millisecond"},
+]}]
+
+PROPS["C06"] = {
+    "technique": "model-based property testing (rapid push histories vs per-address list model) at the real thresholds and on a build with AST-shrunk thresholds; directed search for record lengths on the varint-width boundaries",
+    "level_text": "Push histories (interleaved addresses, shared transactions, per-address counts 1,2,999..1001,1999..2001,2500,3000, the all-zero address, generated yields/sleeps between pushes; thorough: >100000 distinct addresses with a push at a slot divisible by 500) are applied to the real writer and to a per-address list; after Close every address must read back exactly its entries newest first, limits must cut prefixes. The same generator runs densely against a build whose batch size / parked-buffer count / periodic-flush thresholds / poll interval are shrunk by an AST rewrite of gsfa-write.go. LinkedLog.Put/ReadWithSize is driven directly with records whose total length is searched to hit 126..131 and 16382..16388. Exploration level.",
+    "level_note": "Goroutine timing of the background flusher is perturbed (generated Gosched/sleeps, shrunk poll interval), not enumerated. The shrunk build differs from the repository only in the five literals listed in the evidence (transforms_applied); if a literal is no longer found the unit runs with the real value.",
+    "rule": ("real unit: rapid draws 1..8 addresses, a count per address from the boundary list, chunked interleaving, flags and yields; shrunk unit: 1..40 pushes x 1..3 of <=10 addresses x repeat 1..9; linked-log unit: 1..6 chained records, two thirds with a directed target length. "
+             "non-trivial = an address with more entries than one batch or a triggered periodic flush (writer units), a record on a varint boundary (record unit); distinct by case hash"),
+    "assumptions": ["zstd compression used to size records in the directed search is deterministic"],
+    "units": [
+        {"name": "linkedlog-records", "pkg": "./gsfa/linkedlog", "run": "TestVfC06LinkedLog", "replay": "TestVfReplayC06LinkedLog", "checks": T(400, 20000), "shards": T(4, 16), "timeout": T(600, 3000)},
+        {"name": "shrunk-constants", "pkg": "./gsfa", "run": "TestVfC06Shrunk", "checks": T(800, 60000), "shards": T(8, 16), "timeout": T(900, 3000), "transforms": GSFA_SHRINK},
+        {"name": "real-constants", "pkg": "./gsfa", "run": "TestVfC06Real", "checks": T(32, 640), "shards": T(16, 16), "timeout": T(900, 3000)},
+    ],
+}
+
 
 # properties not (yet) claimed by a check; kept current by hand
 NOT_APPLICABLE = [
